@@ -281,7 +281,7 @@ def run(tier, seed, only=None):
         fns = M.parse_mir(text, want=["<impl at crates/erg_compiler/transpile.rs"] + sorted(free))
         del text
         K, src = dispatch(rep, s, tsrc, fns, structs, vvariants, base)
-        kmax = 2 if tier == "quick" else 4
+        kmax = 3 if tier == "quick" else 4
         obs = {k: Obligation(dict(base, shape="a string of %d character(s)%s" % (k, " between the token's quotes" if src == "token" else ""),
                                   symbolic=["each character: any Unicode scalar value (0..=0x10FFFF without surrogates)"], bounds={"chars": k}), key="py-string-kernel/chars=%d" % k)
                for k in range(kmax + 1)}
